@@ -95,3 +95,132 @@ Proof.
   - intros H. inversion H; subst s'. right. exists RunPanic. split; [reflexivity|]. apply CauseModelInternal.
   - intros H. inversion H; subst s'. right. exists RunPanic. split; [reflexivity|]. apply CauseModelInternal.
 Qed.
+
+(* ---- the whole run loop: it returns only through a documented cause ------------------------------------------ *)
+Lemma tail_complete s i ph v : tail_ev (complete s i ph v) = tail_ev s.
+Proof. unfold complete. destruct (alookup i (ops s)); reflexivity. Qed.
+Lemma tail_cancel s i ph : tail_ev (cancel s i ph) = tail_ev s.
+Proof. unfold cancel. destruct (alookup i (ops s)); reflexivity. Qed.
+Lemma tail_write s b : tail_ev (fst (write s b)) = tail_ev s.
+Proof. unfold write. destruct (wbudget s); [destruct (_ <=? _)|]; reflexivity. Qed.
+Lemma tail_close s j : tail_ev (close_stream_sender s j) = tail_ev s.
+Proof. unfold close_stream_sender. destruct (alookup j (streams s)); reflexivity. Qed.
+Lemma tail_ack_waiter s a p : tail_ev (ack_waiter s a p) = tail_ev s.
+Proof. unfold ack_waiter. destruct (alookup a (awaiting (c s))) as [[i ph]|]; [|reflexivity]. rewrite tail_complete. reflexivity. Qed.
+Lemma tail_dispatch s sid p : tail_ev (dispatch s sid p) = tail_ev s.
+Proof.
+  unfold dispatch. destruct (alookup sid (subs (c s))) as [j|]; [|reflexivity].
+  destruct (alookup j (streams s)) as [st|]; [destruct (st_recv st)|]; rewrite ?tail_close; reflexivity.
+Qed.
+Lemma tail_handle_packet s p : tail_ev (fst (handle_packet s p)) = tail_ev s.
+Proof.
+  unfold handle_packet. cbv zeta. destruct (rk p); cbn [fst]; rewrite ?tail_ack_waiter, ?tail_write; try reflexivity.
+  destruct (r_qos p =? 0); cbn [fst]; rewrite ?tail_write;
+    repeat match goal with
+    | |- context [if ?b then _ else _] => destruct b
+    | |- context [match pub_subid p with _ => _ end] => destruct (pub_subid p)
+    end; rewrite ?tail_dispatch; reflexivity.
+Qed.
+Lemma tail_handle_message s m : tail_ev (fst (handle_message s m)) = tail_ev s.
+Proof.
+  unfold handle_message. cbv zeta. destruct m as [i p|i ph a p|i a sid p].
+  - destruct (negb (size_ok (c s) p)); cbn [fst]; [apply tail_complete|].
+    destruct (negb (snd (write s p))); cbn [fst]; rewrite ?tail_cancel, ?tail_complete, ?tail_write; reflexivity.
+  - destruct (negb (size_ok (c s) p)); cbn [fst]; [apply tail_complete|].
+    destruct (ptype_of p =? 3).
+    + destruct (quota (c s) =? 0); cbn [fst]; [apply tail_complete|].
+      destruct (negb (snd (write _ p))); cbn [fst]; rewrite ?tail_cancel; cbn [tail_ev set_c]; rewrite ?tail_write; reflexivity.
+    + destruct (ptype_of p =? 6); destruct (negb (snd (write s p))); cbn [fst]; rewrite ?tail_cancel; cbn [tail_ev set_c];
+        rewrite ?tail_write; reflexivity.
+  - destruct (negb (size_ok (c s) p)); cbn [fst]; rewrite ?tail_close, ?tail_complete, ?tail_write; reflexivity.
+Qed.
+Lemma wb_handle_message s m : wbudget s = None -> wbudget (fst (handle_message s m)) = None.
+Proof.
+  intros Hb. unfold handle_message. cbv zeta.
+  destruct m as [i p|i ph a p|i a sid p].
+  - destruct (negb (size_ok (c s) p)); cbn [fst]; [rewrite complete_wbudget; exact Hb|].
+    rewrite write_nofault_snd, write_nofault_fst by exact Hb. cbn [negb fst]. rewrite complete_wbudget. reflexivity.
+  - destruct (negb (size_ok (c s) p)); cbn [fst]; [rewrite complete_wbudget; exact Hb|].
+    destruct (ptype_of p =? 3).
+    + destruct (quota (c s) =? 0); cbn [fst]; [rewrite complete_wbudget; exact Hb|].
+      rewrite write_nofault_snd, write_nofault_fst by exact Hb. reflexivity.
+    + destruct (ptype_of p =? 6); rewrite write_nofault_snd, write_nofault_fst by exact Hb; reflexivity.
+  - destruct (negb (size_ok (c s) p)); cbn [fst].
+    + unfold close_stream_sender. destruct (alookup i (streams _)); cbn [wbudget set_streams];
+        rewrite complete_wbudget; exact Hb.
+    + rewrite write_nofault_fst by exact Hb. reflexivity.
+Qed.
+
+(* a turn that lets the loop go on reports nothing and keeps the transport healthy *)
+Lemma run_turn_go s s' : wbudget s = None -> run_turn s = (s', TGo) -> tail_ev s' = tail_ev s /\ wbudget s' = None.
+Proof.
+  intros Hb. unfold run_turn. destruct (fpoll (poll_fuel (rd s)) (fr s) (rd s)) as [[o f] r].
+  destruct o as [bs| | | |]; try discriminate.
+  - destruct (dec_packet bs) as [p| |]; try discriminate.
+    pose proof (tail_handle_packet (set_io s r f) p) as Ht. pose proof (handle_packet_wire (set_io s r f) p Hb) as Hw.
+    destruct (handle_packet (set_io s r f) p) as [s1 a]. cbn [fst] in *. destruct a; [|discriminate].
+    intros H. inversion H; subst. split; [exact Ht|]. unfold wb in Hw. inversion Hw. reflexivity.
+  - destruct (msgq (set_io s r f)) as [|m q]; [destruct (live_senders _ =? 0); discriminate|].
+    pose proof (tail_handle_message (set_msgq (set_io s r f) q) m) as Ht.
+    pose proof (wb_handle_message (set_msgq (set_io s r f) q) m Hb) as Hw.
+    destruct (handle_message (set_msgq (set_io s r f) q) m) as [s1 a]. cbn [fst] in *. destruct a; [|discriminate].
+    intros H. inversion H; subst. auto.
+Qed.
+
+(* every way out of the loop: nothing reported (it is still serving: parked on Pending), or exactly one
+   run() result whose cause is one of the documented ones, observed in the state the last turn started from *)
+Theorem settle_loop_exit fuel : forall s, wbudget s = None -> cph s = CRunning ->
+  tail_ev (settle_loop fuel s) = tail_ev s \/
+  exists s0 r, wbudget s0 = None /\ run_exit_cause s0 r /\ tail_ev (settle_loop fuel s) = tail_ev s ++ [ORun r].
+Proof.
+  induction fuel as [|fuel IH]; intros s Hb Hc; cbn [settle_loop]; [left; reflexivity|]. rewrite Hc.
+  destruct (run_turn s) as [s1 t] eqn:Et. destruct t.
+  - destruct (run_turn_exit s s1 Hb Et) as [H|[r [H1 H2]]]; [left; exact H|]. right. exists s, r. auto.
+  - destruct (run_turn_go s s1 Hb Et) as [Ht Hw].
+    destruct (cph s1) eqn:Ec1.
+    + destruct fuel; cbn [settle_loop]; rewrite ?Ec1; left; exact Ht.
+    + (* a running turn never changes the phase to connecting; covered for completeness *)
+      destruct fuel as [|fuel']; cbn [settle_loop]; [left; exact Ht|]. rewrite Ec1.
+      assert (Hcp : cph s1 = cph s).
+      { clear -Et. unfold run_turn in Et. destruct (fpoll (poll_fuel (rd s)) (fr s) (rd s)) as [[o f] r].
+        destruct o as [bs| | | |]; try discriminate.
+        - destruct (dec_packet bs) as [p| |]; try discriminate.
+          assert (Hk : cph (fst (handle_packet (set_io s r f) p)) = cph s).
+          { clear. unfold handle_packet. cbv zeta.
+            assert (Hw : forall s b, cph (fst (write s b)) = cph s) by (intros s0 b; unfold write; destruct (wbudget s0); [destruct (_ <=? _)|]; reflexivity).
+            assert (Hcm : forall s i ph v, cph (complete s i ph v) = cph s) by (intros s0 i ph v; unfold complete; destruct (alookup i (ops s0)); reflexivity).
+            assert (Ha : forall s a p, cph (ack_waiter s a p) = cph s) by (intros s0 a p0; unfold ack_waiter; destruct (alookup a (awaiting (c s0))) as [[i ph]|]; [rewrite Hcm|]; reflexivity).
+            assert (Hcl : forall s j, cph (close_stream_sender s j) = cph s) by (intros s0 j; unfold close_stream_sender; destruct (alookup j (streams s0)); reflexivity).
+            assert (Hd : forall s sid p, cph (dispatch s sid p) = cph s).
+            { intros s0 sid p0. unfold dispatch. destruct (alookup sid (subs (c s0))) as [j|]; [|reflexivity].
+              destruct (alookup j (streams s0)) as [st|]; [destruct (st_recv st)|]; rewrite ?Hcl; reflexivity. }
+            destruct (rk p); cbn [fst]; rewrite ?Ha, ?Hw; try reflexivity.
+            destruct (r_qos p =? 0); cbn [fst]; rewrite ?Hw;
+              repeat match goal with
+              | |- context [if ?b then _ else _] => destruct b
+              | |- context [match pub_subid p with _ => _ end] => destruct (pub_subid p)
+              end; rewrite ?Hd; reflexivity. }
+          destruct (handle_packet (set_io s r f) p) as [s2 a]. cbn [fst] in Hk. destruct a; [|discriminate].
+          inversion Et; subst. exact Hk.
+        - destruct (msgq (set_io s r f)) as [|m q]; [destruct (live_senders _ =? 0); discriminate|].
+          assert (Hk : cph (fst (handle_message (set_msgq (set_io s r f) q) m)) = cph s).
+          { clear. unfold handle_message. cbv zeta.
+            assert (Hw : forall s b, cph (fst (write s b)) = cph s) by (intros s0 b; unfold write; destruct (wbudget s0); [destruct (_ <=? _)|]; reflexivity).
+            assert (Hcm : forall s i ph v, cph (complete s i ph v) = cph s) by (intros s0 i ph v; unfold complete; destruct (alookup i (ops s0)); reflexivity).
+            assert (Hca : forall s i ph, cph (cancel s i ph) = cph s) by (intros s0 i ph; unfold cancel; destruct (alookup i (ops s0)); reflexivity).
+            assert (Hcl : forall s j, cph (close_stream_sender s j) = cph s) by (intros s0 j; unfold close_stream_sender; destruct (alookup j (streams s0)); reflexivity).
+            destruct m as [i p|i ph a p|i a sid p].
+            - destruct (negb (size_ok _ p)); cbn [fst]; [rewrite Hcm; reflexivity|].
+              destruct (negb (snd (write _ p))); cbn [fst]; rewrite ?Hca, ?Hcm, ?Hw; reflexivity.
+            - destruct (negb (size_ok _ p)); cbn [fst]; [rewrite Hcm; reflexivity|].
+              destruct (ptype_of p =? 3).
+              + destruct (quota _ =? 0); cbn [fst]; [rewrite Hcm; reflexivity|].
+                destruct (negb (snd (write _ p))); cbn [fst]; rewrite ?Hca; cbn [cph set_c]; rewrite ?Hw; reflexivity.
+              + destruct (ptype_of p =? 6); destruct (negb (snd (write _ p))); cbn [fst]; rewrite ?Hca; cbn [cph set_c]; rewrite ?Hw; reflexivity.
+            - destruct (negb (size_ok _ p)); cbn [fst]; rewrite ?Hcl, ?Hcm, ?Hw; reflexivity. }
+          destruct (handle_message (set_msgq (set_io s r f) q) m) as [s2 a]. cbn [fst] in Hk. destruct a; [|discriminate].
+          inversion Et; subst. exact Hk. }
+      rewrite Hcp, Hc in Ec1. discriminate.
+    + destruct (IH s1 Hw Ec1) as [H|[s0 [r [H1 [H2 H3]]]]]; [left; rewrite H; exact Ht|].
+      right. exists s0, r. rewrite H3, Ht. auto.
+Qed.
